@@ -80,7 +80,7 @@ def gen_fileset(rng, paths, ncontents, prev=None):
 
 def gen_history(seed, label, *, encrypted=None, max_users=3, nops=(3, 10), destructive=True, overlap=False,
                 crash_snapshots=False, wrong_unlock=False, foreign_delete=False, decoys=False, reads=True,
-                settings=None, filters=False, p_snapshot=0.5):
+                settings=None, filters=False, p_snapshot=0.5, many=0.0, services=False):
     rng = substream(seed, label)
     if settings is None:
         settings = gen.gen_settings(rng, encrypted=encrypted)
@@ -140,6 +140,18 @@ def gen_history(seed, label, *, encrypted=None, max_users=3, nops=(3, 10), destr
         dec = {name: base64.b64encode(rng.randbytes(rng.randrange(0, 40))).decode()
                for name in rng.sample(['README', 'other/prefix/x', 'database/file', 'snapshots.bak/aa/bb-cc', 'datafile',
                                        'config.old', 'keys/k1', 'zzz'], rng.randrange(1, 4))}
+    mrng = substream(seed, label + '/many')
+    if many and mrng.random() < many:
+        # a repository with at least 10 x concurrency snapshots (the size of replicat's internal queues):
+        # everybody works with one connection and the history starts with a run of small snapshots
+        for u in users:
+            u['N'] = 1
+        head = []
+        for j in range(mrng.randrange(10, 14)):
+            fs = {mrng.choice(paths): mrng.randrange(len(contents)) for _ in range(mrng.choice([1, 1, 2]))}
+            head.append({'op': 'snapshot', 'u': mrng.randrange(len(users)), 'files': fs, 'at': -1000.0 + j,
+                         'mt': mrng.randrange(10**9, 2 * 10**9), 'note': None})
+        ops = head + ops
     # some users are long-running programs that keep their Repository object (and adapter, loop,
     # threads) from one command to the next; the others start a process per command, as the CLI does
     lrng = substream(seed, label + '/live')
@@ -150,6 +162,9 @@ def gen_history(seed, label, *, encrypted=None, max_users=3, nops=(3, 10), destr
         'flavour': rng.choice(['sync', 'async']), 'lat_kind': rng.choice(['zero', 'uniform', 'heavy']),
         'lat': rng.choice([0.001, 0.02]), 'opts': world.SchedOpts.swarm(rng).as_dict(),
         'list_order': rng.choice(['sorted', 'shuffled']),
+        'list_page': mrng.choice([None, None, 1, 2, 5]),
+        'backend': mrng.choice([None] * 6 + ['b2', 's3']) if services else None,
+        'svc_page': mrng.choice([1, 2, 3, 1000]),
     }
 
 
@@ -214,15 +229,57 @@ class Violation(Exception):
 
 
 # ------------------------------------------------------------------ engine
+class ServiceUniverse:
+    """The repository lives in a fake B2 / S3 service behind the real adapter (httpx transport seam):
+    histories then also exercise what the adapters make of the services' own semantics (B2 keeps
+    every upload of a name as a version; listings come in pages)."""
+
+    def __init__(self, H, kind, page, lat):
+        from . import fakes
+        self.H, self.kind, self.fakes = H, kind, fakes
+        if kind == 's3':
+            self.svc = fakes.FakeS3(bucket='bkt', key_id='AKID', secret='secret/key+1', region='us-east-1', host='s3.fake.test',
+                                    page_size=page, latency=lat, faults=[], request_budget=None)
+        else:
+            self.svc = fakes.FakeB2(bucket_name='bkt', bucket_id='bid', key_id='kid', application_key='akey', page_size=page,
+                                    latency=lat, faults=[], request_budget=None)
+        self.jpos = 0
+        H.W.make_backend_override = self.make
+        H.W.after_run = self.after
+
+    def make(self):
+        return self.fakes.make_s3(self.svc) if self.kind == 's3' else self.fakes.make_b2(self.svc)
+
+    def after(self, r):
+        st = self.H.W.state
+        st.objects = dict(self.svc.objects)
+        for (o, name, size) in self.svc.journal[self.jpos:]:
+            st.journal.append(('svc', 'upload' if o == 'put' else 'delete', name, size))
+        self.jpos = len(self.svc.journal)
+
+    def put_raw(self, name, data):
+        if self.kind == 's3':
+            self.svc.objects[name] = data
+        else:
+            self.svc.versions[name] = [('upload', data, 'raw-' + name)]
+        self.H.W.state.objects[name] = data
+
+
 class History:
     def __init__(self, case, check, oracles):
         self.case = case
         self.oracles = set(oracles)
         self.W = harness.World(case['sched_seed'], check, flavour=case['flavour'], lat_kind=case['lat_kind'],
                                lat=case['lat'], list_order=case['list_order'])
+        self.W.list_page = case.get('list_page')
+        self.universe = None
+        if case.get('backend') in ('b2', 's3'):
+            self.universe = ServiceUniverse(self, case['backend'], case.get('svc_page', 1000), case['lat'] if case['lat_kind'] != 'zero' else 0.0)
         self.opts = world.SchedOpts.from_dict(case['opts'])
         self.viol = []
         self.probes = {}
+        if self.universe is not None:
+            self.probes['backend_' + case['backend']] = 1
         self.snaps = []
         self.clients = []
         self.refs = []          # RefRepo per user
@@ -289,7 +346,10 @@ class History:
                 raise Violation('format-key', f'config / key file of u{i} does not decode under the documented scheme: {e!r}')
         if case.get('decoys'):
             for name, b in case['decoys'].items():
-                W.state.objects[name] = base64.b64decode(b)
+                if self.universe is not None:
+                    self.universe.put_raw(name, base64.b64decode(b))
+                else:
+                    W.state.objects[name] = base64.b64decode(b)
         self.config_bytes = cfg
         if 'near_miss' in self.oracles and self.enc:
             # a password that differs only in its tail / length never unlocks
@@ -340,6 +400,8 @@ class History:
                 return self.result()
             if 'format' in self.oracles or 'store' in self.oracles:
                 self.check_store(after='setup')
+            if getattr(self, 'post_setup', None) is not None:
+                self.post_setup(self)
             for i, op in enumerate(self.case['ops']):
                 self.opi = i
                 self.step(op)
@@ -594,7 +656,7 @@ class History:
             client = self.clients[op_['u']]
 
             async def run_one(res):
-                backend = (store.AsyncSimStore if W.flavour == 'async' else store.SimStore)(W.state, W.profile())
+                backend = W.factory(W.profile())()
                 repo = R.Repository(backend, concurrent=client.concurrent, quiet=True, cache_directory=None)
                 await repo.unlock(password=client.password, key=client.key)
                 if op_['op'] == 'snapshot':
@@ -622,6 +684,8 @@ class History:
         W.env.fixed_utcnow = None
         W.env.clock_offset = base_at - W.env.now
         r = world.run_process(W.env, main, self.opts)
+        if W.after_run is not None:
+            W.after_run(r)
         W.env.clock_offset = 0.0
         W.sim_steps += r.stats['steps']
         W.sim_s += r.stats['sim_s']
